@@ -65,3 +65,65 @@ def check_C01(tier):
     rep.assumptions += ["columns of a key are observed on an empty probe sketch (not recomputed)",
                         "TLC 1.8 and the CommunityModules Json/IOUtils overrides"]
     return rep.finish()
+
+
+# ------------------------------------------------------------- C03 / C04 / C13
+
+def _hh_common(prop, tier, invs, props, focus, query_mc):
+    import hh as H
+    rep = Report(prop, tier)
+    rng = _rng(prop)
+    quick = tier == "quick"
+    # (1) design level
+    if query_mc:
+        H.model_check(rep, invs, props, tag=prop + "mcq", W=2, D=1, Cap=5, MaxTruth=3, Slots=1, query=True)
+        if not quick:
+            H.model_check(rep, invs, props, tag=prop + "mcq2", W=1, D=2, Cap=5, MaxTruth=3, Slots=1, query=True)
+            H.model_check(rep, invs, props, tag=prop + "mcq3", W=2, D=1, Cap=5, MaxTruth=3, Slots=2, query=True,
+                          small=True, unit_ops=False)
+    else:
+        H.model_check(rep, invs, props, tag=prop + "mc", W=2, D=1, Cap=5, MaxTruth=3 if quick else 4, Slots=2)
+        H.model_check(rep, invs, props, tag=prop + "mcw1", W=1, D=2, Cap=5, MaxTruth=3 if quick else 4, Slots=2)
+        if not quick:
+            H.model_check(rep, invs, props, tag=prop + "mcd2", W=2, D=2, Cap=5, MaxTruth=3, Slots=2,
+                          env_idx=sorted(rng.sample(range(1, 65), 12)))
+    # (2) spec -> code on placements observed from the real hash
+    for (W, D) in ([(2, 1)] if quick else [(2, 1), (1, 2), (2, 2)]):
+        envs = H.observed_envs(W, D, 3 if quick else 8, rng)
+        if query_mc:
+            edges = H.export_edges(rep, envs, prop + "eq%d%d" % (W, D), 5, 3, 1, False, True, True)
+        else:
+            edges = H.export_edges(rep, envs, prop + "e%d%d" % (W, D), 5, 3, 2, False, False, quick)
+        H.replay_edges(rep, edges, envs, 5, True)
+        edges = H.export_edges(rep, envs[:2], prop + "eu%d%d" % (W, D), 1000, 2, 1 if query_mc else 2, True, query_mc, True)
+        H.replay_edges(rep, edges, envs[:2], 1000, False)
+    # (3) code -> spec
+    n = 60 if quick else 600
+    traces = [H.random_history(rng, focus=rng.choice(focus)) for _ in range(n)]
+    for i in range(0, n, 150):
+        H.validate(rep, traces[i:i + 150], invs, props, tag=prop + "tr%d" % i)
+    rep.sample({"trace_shape": {k: traces[0][k] for k in ("W", "D", "L", "NS", "phi")},
+                "trace_keys": traces[0]["keys"][:3],
+                "trace_events": [{k: v for k, v in e.items() if k != "post"} for e in traces[0]["events"][:4]]})
+    rep.cov["exhaustive"] = True
+    rep.cov["rule"] = ("TLC: all histories of the named small instances (identities e,<0>,<1>,<1,0>, L=2); edge replay: "
+                       "every exported transition on placements observed from the real hash; traces: random "
+                       "histories on real sketches incl. NUL-aliased keys")
+    rep.cov["distinct_nontrivial"] = rep.cov["states"]
+    rep.assumptions += ["cell ownership observed on an empty probe sketch", "TLC 1.8, CommunityModules Json/IOUtils"]
+    return rep.finish()
+
+
+def check_C03(tier):
+    import hh as H
+    return _hh_common("C03", tier, H.INV_C03, [], [None, None, "ceiling", "batch"], False)
+
+
+def check_C04(tier):
+    import hh as H
+    return _hh_common("C04", tier, H.INV_C04, [], [None, None, "batch"], False)
+
+
+def check_C13(tier):
+    import hh as H
+    return _hh_common("C13", tier, H.INV_C13, H.PROP_C13, ["query", "query", None], True)
